@@ -25,7 +25,9 @@ def random_shape(r, rich=True, bare=False):
         shape['uids'].append({'text': t, 'third': r.choice([0, 0, 1, 2, 3]), 'revoked': r.random() < 0.2, 'nonexp': r.random() < 0.3, 'exp_true': r.random() < 0.3,
                               'attest': r.random() < 0.2, 'recert': r.random() < 0.3, 'primary': r.choice([None, True, False]),
                               # an identity nobody has (exportably) certified: it is still part of the key
-                              'bare': bare and len(shape['uids']) > 0 and r.random() < 0.18})
+                              'bare': bare and len(shape['uids']) > 0 and r.random() < 0.18,
+                              # a third-party certification whose own expiration time has already passed
+                              'lapsed': r.random() < 0.2})
     shape['ua_bare'] = bare and bool(shape['uas']) and r.random() < 0.3
     for s in r.sample(SUBPOOL, r.randint(0, 3)):
         shape['subs'].append({'name': s, 'revoked': r.random() < 0.25})
@@ -76,6 +78,10 @@ def build(shape):
                 s = c.certify(uid, [SignatureType.Generic_Cert, SignatureType.Casual_Cert, SignatureType.Persona_Cert][j % 3], **opts)
                 uid |= s
                 (info['nonexportable'] if opts.get('exportable') is False else info['exportable']).append(bytes(s))
+            if u.get('lapsed'):
+                s = certifier(CERTIFIERS[0]).certify(uid, SignatureType.Casual_Cert, created=T0 - timedelta(days=30, seconds=tick[0]), expires=timedelta(days=1))
+                uid |= s
+                info['exportable'].append(bytes(s))
             if u.get('attest') and u['third']:
                 thirds = [s for s in uid._signatures if s.signer != k.fingerprint.keyid]
                 uid |= k.certify(uid, SignatureType.Attestation, attested_certifications=thirds, created=when())
